@@ -21,7 +21,7 @@ ASSUME TLCSet(7, ndJsonDeserialize(IOEnv.TRACE))
 Log == TLCGet(7)
 
 ModelledOps == {"CreateFile", "RemoveFile", "CreateSub", "CreateNamed", "Copy", "Move", "Remove", "RemoveKind", "Rename",
-                "SetText", "RemoveText", "SetRef", "SetAttr", "RemoveAttr", "SetComment", "AddToFile", "RemoveFromFile", "Duplicate", "Load"}
+                "SetText", "RemoveText", "SetRef", "SetAttr", "RemoveAttr", "SetComment", "AddToFile", "RemoveFromFile", "Duplicate", "Load", "InsertText", "RemoveTextItem"}
 
 \* observation -> specification state
 Abs(o) ==
